@@ -16,7 +16,11 @@ partial def ser : Node → String
   | .ident n p => s!"(id {J.toHex n} {posS p})"
   | .strLit v p => s!"(str {J.toHex v} {posS p})"
   | .intLit v p => s!"(int {v} {posS p})"
-  | .floatLit b p => s!"(float {b.toNat} {posS p})"
+  | .floatLit b p =>
+    -- NaNs are compared as one value (the harness prints every NaN as the canonical quiet NaN)
+    let n := b.toNat
+    let n := if n % 9223372036854775808 > 9218868437227405312 then 9221120237041090560 else n
+    s!"(float {n} {posS p})"
   | .boolLit v p => s!"(bool {v} {posS p})"
   | .nilLit p => s!"(nil {posS p})"
   | .list xs lb rb => s!"(list {posS lb} {posS rb}{serL xs})"
